@@ -119,6 +119,18 @@ func memberOfPool(p *Prog, fn *ssa.Function, v ssa.Value, param int, d int) bool
 }
 
 func runC11(p *Prog, r *Report) {
+	// R10: the cookie a client receives is built for its own request (no shared mutable prototype; shared with C09.R1); R11: the pool lock is not held across user-supplied cookie code without defer (shared with C09.R8); R12: a discarded attempt's headers (its cookie) do not survive into the final response (shared with C07.R1)
+	{
+		var roots []*types.Named
+		for _, n := range []string{"RoundRobin", "Rebalancer"} {
+			if t := p.Named("roundrobin", n); t != nil {
+				roots = append(roots, t)
+			}
+		}
+		r.Floor("C11.R10", c09Races(p, r, "C11.R10", roots), 1, "written shared locations of the balancers")
+	}
+	r.Floor("C11.R11", c09PanicSafe(p, r, "C11.R11", "roundrobin"), 1, "critical sections of the balancers that may run user-supplied code")
+	r.Borrow(p, runC07, map[string]string{"C07.R1": "C11.R12"}, nil)
 	// R9: the affinity cookie the balancer put on the response survives a buffer in the chain: utils.CopyHeaders adds to the destination's values (shared with C06.R5)
 	r.Borrow(p, runC06, map[string]string{"C06.R5": "C11.R9"}, nil)
 	c11StampChecked(p, r)
